@@ -66,6 +66,7 @@ type c03Shape struct {
 	Multi   bool `json:",omitempty"` // the route is registered through Routes with three method names given as separate leading strings
 	Wrap    bool `json:",omitempty"` // a HandlerWrapper (the identity) is configured before anything is registered
 	Head    bool `json:",omitempty"` // AutoHead is on and the request is a HEAD request (served by the chain registered alongside the GET route)
+	Refused bool `json:",omitempty"` // around every accepted Use call and the route registration, a Use / Get / Action call that is refused for a non-callable argument (the panic is recovered): nothing of a refused call is in any chain
 }
 
 func (s c03Shape) n() int {
@@ -192,7 +193,25 @@ func c03Build(s c03Shape, strMask int) *c03World {
 	}
 	var lateMW flamego.Handler
 	var realMW []flamego.Handler
+	alien := func(c flamego.Context) { w.trace = append(w.trace, c03Ev{K: 'E', I: 90}) }
+	refused := func(what string) {
+		if !s.Refused {
+			return
+		}
+		func() {
+			defer func() { _ = recover() }()
+			switch what {
+			case "use":
+				w.f.Use(alien, 42, alien)
+			case "get":
+				w.f.Get("/refused", alien, "not-callable")
+			case "action":
+				w.f.Action(42)
+			}
+		}()
+	}
 	for i := 0; i < s.M; i++ {
+		refused("use")
 		h := next()
 		if s.Swap {
 			realMW = append(realMW, h)
@@ -211,6 +230,7 @@ func c03Build(s c03Shape, strMask int) *c03World {
 		}
 		w.f.Use(h)
 	}
+	refused("use")
 	var gh []flamego.Handler
 	for i := 0; i < s.G; i++ {
 		gh = append(gh, next())
@@ -220,6 +240,8 @@ func c03Build(s c03Shape, strMask int) *c03World {
 		rh = append(rh, next())
 	}
 	get := func(path string, hs ...flamego.Handler) {
+		refused("get")
+		defer refused("get")
 		if s.Multi {
 			w.f.Routes(path, "GET", append([]flamego.Handler{"POST", "PUT"}, hs...)...)
 			return
@@ -283,9 +305,12 @@ func c03Build(s c03Shape, strMask int) *c03World {
 			w.f.Use(lateMW)
 		}
 	}
+	refused("action")
 	if s.Action {
 		w.f.Action(next())
 	}
+	refused("action")
+	refused("use")
 	return w
 }
 
@@ -549,6 +574,7 @@ func c03Shapes(maxN int, thorough bool) []c03Shape {
 							out = append(out, c03Shape{M: m, G: g, R: r, Action: act, Hollow: true})
 						}
 						out = append(out, c03Shape{M: m, G: g, R: r, Action: act, Head: true})
+						out = append(out, c03Shape{M: m, G: g, R: r, Action: act, Refused: true})
 						if g >= 2 {
 							out = append(out, c03Shape{M: m, G: g, R: r, Action: act, Flat: true, Head: true})
 						}
